@@ -731,6 +731,11 @@ class BinaryOp(Expr):
             if not self.type.is_integral:
                 return x
 
+            if isinstance(x, float):
+                # an integral operation with a fractional result
+                # (2 ^ -1): stored in an integral cell at run time
+                x = round(x)
+
             c_type = {
                 Type.INTEGER: ctypes.c_short,
                 Type.LONG: ctypes.c_int,  # LONG is 32 bits (c_long is 64 on most platforms)
